@@ -37,6 +37,47 @@ fn json_arrays<'a>(v: &'a mut Value, old: &[u8], out: &mut Vec<&'a mut Vec<Value
     }
 }
 
+/// replace every occurrence of the byte string `old` inside a JSON value by `new`, however the implementation spells
+/// byte strings: an array of numbers (the whole array or a contiguous run inside a longer one) or a hex string (the whole
+/// string or a part of it); returns the number of replacements
+fn json_replace(v: &mut Value, old: &[u8], new: &[u8]) -> usize {
+    match v {
+        Value::Array(a) => {
+            let nums: Option<Vec<u8>> = a.iter().map(|x| x.as_u64().filter(|n| *n < 256).map(|n| n as u8)).collect();
+            if let Some(bytes) = nums {
+                let pos = find_all(&bytes, old);
+                if !pos.is_empty() {
+                    // non-overlapping, from the back
+                    let mut n = 0;
+                    let mut last = usize::MAX;
+                    for p in pos.into_iter().rev() {
+                        if p + old.len() <= last {
+                            a.splice(p..p + old.len(), new.iter().map(|x| json!(*x)));
+                            last = p;
+                            n += 1;
+                        }
+                    }
+                    return n;
+                }
+                return 0;
+            }
+            a.iter_mut().map(|x| json_replace(x, old, new)).sum()
+        }
+        Value::Object(m) => m.values_mut().map(|x| json_replace(x, old, new)).sum(),
+        Value::String(st) => {
+            for (ho, hn) in [(hex::encode(old), hex::encode(new)), (hex::encode_upper(old), hex::encode_upper(new))] {
+                let c = st.matches(&ho).count();
+                if c > 0 && !ho.is_empty() {
+                    *st = st.replace(&ho, &hn);
+                    return c;
+                }
+            }
+            0
+        }
+        _ => 0,
+    }
+}
+
 /// replace the (unique) occurrence of `old` inside the `codec` form of the honest object by `new`
 fn inject(api: &Api, kind: Kind, native: &[u8], range: Option<std::ops::Range<usize>>, old: &[u8], new: &[u8], codec: Codec) -> Result<Blob, String> {
     match codec {
@@ -62,12 +103,10 @@ fn inject(api: &Api, kind: Kind, native: &[u8], range: Option<std::ops::Range<us
         Codec::Json => {
             let b = api.recode(kind, &Blob::n(native), Codec::Json).map_err(|e| format!("json encode failed: {:?}", e))?;
             let mut v: Value = serde_json::from_slice(&b.bytes).map_err(|e| format!("json parse: {e}"))?;
-            let mut hits = vec![];
-            json_arrays(&mut v, old, &mut hits);
-            if hits.len() != 1 {
-                return Err(format!("json locator: honest value found {} times", hits.len()));
+            let hits = json_replace(&mut v, old, new);
+            if hits != 1 {
+                return Err(format!("json locator: honest value found {} times", hits));
             }
-            *hits.pop().unwrap() = new.iter().map(|x| json!(*x)).collect();
             Ok(Blob::new(Codec::Json, serde_json::to_vec(&v).unwrap()))
         }
     }
@@ -195,10 +234,7 @@ fn explore(api: &Api, seed: u64, cx: &mut Cx) {
                     Codec::Json => {
                         let arr = |b: &[u8]| b.iter().map(|x| json!(*x)).collect::<Vec<Value>>();
                         let mut v: Value = serde_json::from_slice(&honest_form.bytes).unwrap_or(Value::Null);
-                        let mut hits = vec![];
-                        json_arrays(&mut v, honest_v, &mut hits);
-                        if hits.len() == 1 {
-                            *hits.pop().unwrap() = arr(b);
+                        if json_replace(&mut v, honest_v, b) == 1 {
                             Blob::new(codec, serde_json::to_vec(&v).unwrap())
                         } else {
                             Blob::new(codec, serde_json::to_vec(&arr(b)).unwrap())
